@@ -213,10 +213,25 @@ func (p *Path) intrinsic(fn *ssa.Function, args []Value) (Value, bool) {
 			return itoa(a), true
 		}
 		return a, true
-	case "verifTempFile", "verifTempFileWith":
+	case "verifTempFile":
 		return p.nondetVar(constStr(p, args[0], "nondet name"), SStr), true
+	case "verifTempFileWith":
+		// the target of a Save: a file with the given content (or absent)
+		nm := p.nondetVar(constStr(p, args[0], "nondet name"), SStr)
+		e := p.fsLookup(nm)
+		e.content, e.exists = args[1].(*Term), args[2].(*Term)
+		return nm, true
 	case "verifReadTempFile":
-		return Tuple{mkStr(""), tFalse}, true
+		e := p.fsLookup(args[0].(*Term))
+		return Tuple{e.content, e.exists}, true
+	case "verifFSFailed":
+		return mkBool(p.fsFailed), true
+	case "verifFSCreatedMode":
+		e := p.fsLookup(args[0].(*Term))
+		if e.perm == nil {
+			return mkInt(-1), true
+		}
+		return e.perm, true
 	case "verifEffectFailed":
 		i := p.concreteInt(args[0], "effect index")
 		if i < 0 || int(i) >= len(p.effectFail) {
